@@ -702,6 +702,17 @@ class C10(Family):
             res, scale = [[F(0)]], F(1)
         if res is None:
             return "residual", "the documented equation cannot be evaluated at the returned X (singular R / B'XB+R)"
+        # the terms of the equation are themselves only known to binary64 precision RELATIVE TO THE DATA:
+        # when the exact solution is 0 (Q = 0) SciPy returns entries of order 1e-32, every term is of that
+        # order and the quotient is meaningless (thorough seed 12).  A residual below one unit in the last
+        # place of the data scale is a perturbation of Q nobody can see: floor the scale there.
+        try:
+            dmax = max([F(1)] + [abs(F(x)) for a_ in case["args"].values() if a_ and a_.get("v")
+                                 for r_ in (a_["v"] if isinstance(a_["v"][0], list) else [a_["v"]]) for x in r_])
+        except Exception:  # noqa
+            dmax = F(1)
+        if scale is not None:
+            scale = max(scale, F(1, 2 ** 52) * dmax * dmax)
         rel = exmat.maxabs(res) / scale if scale else exmat.maxabs(res)
         info["resid"] = float(rel)
         if rel > RES_TOL and designed:
